@@ -46,11 +46,23 @@ def _progs_for(prop, tier, seed):
         add(gen.c03_curated(), "run", ["mismatch", "duplicate", "nonterm", "panic"])
     elif prop == "C04":
         add(gen.c04_curated(), "run", ["mismatch", "nonterm", "panic"])
+        # dedicated queries with caller-duplicated input tuples (each distinct tuple must still be aggregated once)
+        dupp = [p for p in gen.c04_curated() if p.name in ("agg_count_key", "agg_sum_min_max", "agg_global")]
+        for p in dupp:
+            p.name += "__dup"
+        add(dupp, "run", ["mismatch", "nonterm", "panic"], dup=True)
     elif prop == "C13":
         base = gen.c01_curated() + gen.c03_curated() + gen.c04_curated()
         add(base, "rerun", ["mismatch", "nonterm", "panic"])
-        pos = gen.c01_curated() + gen.c03_curated()
-        add(pos, "push", ["mismatch", "nonterm", "panic"])
+        # pushes: positive programs; lattice programs only where relations read lattice values through
+        # upward-closed tests (a non-monotone read of a lattice value behaves like an aggregate)
+        pos = gen.c01_curated() + [p for p in gen.c03_curated() if p.name not in ("constprop", "lat_nokey")]
+        if q:
+            pos = [p for p in pos if p.name not in ("arity3", "three_dyn", "lat_upward")]
+        lat = [p for p in pos if any(r.lattice for r in p.rels)]
+        add([p for p in pos if p not in lat], "push", ["mismatch", "nonterm", "panic"])
+        # two symbolic input sets over a lattice program: universe of 2 constants (3 exceeds the node budget)
+        add(lat, "push", ["mismatch", "nonterm", "panic"], D=2)
     elif prop == "C14":
         base = gen.c01_curated() + gen.c04_curated()
         sel = base if not q else [p for p in base if p.name in ("tc", "two_strata", "mutual3", "facts_multihead", "agg_chain", "agg_over_recursive", "consts_repeats", "generators")]
@@ -65,8 +77,13 @@ def _progs_for(prop, tier, seed):
     for j in jobs:
         p = j["prog"]
         if p.name in seen and seen[p.name] is not p:
-            raise RuntimeError("duplicate program name " + p.name)
-        seen[p.name] = p
+            # the generators build fresh objects per call: the same program under another scenario
+            from symx import lang as _L
+            if _L.program_rs(seen[p.name]) != _L.program_rs(p):
+                raise RuntimeError("two different programs named " + p.name)
+            j["prog"] = seen[p.name]
+        else:
+            seen[p.name] = p
     return jobs, list(seen.values())
 
 
@@ -123,7 +140,17 @@ def role_of(prop, job, res):
     p = job["prog"]
     feats = program_features(p)
     kinds = sorted({k for k, _ in (res.get("replay") or {}).get("problems", [])})
-    return {"scenario": job["scenario"]["kind"], "failure": kinds[0] if kinds else "?", "dup_inputs": bool(job["scenario"].get("dup")),
+    # does the counterexample itself contain a caller-duplicated tuple in a relation read by a multiplicity-sensitive aggregate?
+    agg_rels = set()
+    for h, b in L.core_rules(p):
+        for it in b:
+            if isinstance(it, L.Agg) and it.agg in ("count", "sum", "mean"):
+                agg_rels.add(it.rel)
+    cex_in = (res.get("cex") or {}).get("inputs") or {}
+    dup_in_agg = any(len(rows) != len(set(rows)) for rn, rows in cex_in.items() if rn in agg_rels)
+    dl = (res.get("cex") or {}).get("deadline_checks") or []
+    return {"cex_duplicates_tuple_in_aggregated_relation": dup_in_agg,
+            "first_call_interrupted": bool(dl and dl[0] > 0),"scenario": job["scenario"]["kind"], "failure": kinds[0] if kinds else "?", "dup_inputs": bool(job["scenario"].get("dup")),
             "multiplicity_sensitive_agg": feats["msagg"], "agg_over_lattice_value": feats["agg_lat_val"],
             "has_lattice": feats["lattice"], "has_agg": feats["agg"]}
 
